@@ -426,11 +426,11 @@ def _belt_tag(c):
     return "%s/%s" % (c["kind"], "acc" if c["acc"] else "nonacc")
 
 
-def _belt_on_grid(c):
+def _belt_on_grid(c, odd_ok=False):
     """one producer and every arrival gap, service time and the consumer's start a whole number of slot times:
     the known early release of a follower on the continuous accumulating belt needs off-grid times or two
     producers, so an overlap on such a case is NOT that finding"""
-    if c["kind"] != "cont" or len(c["producers"]) != 1 or isinstance(c["producers"][0], dict) or c.get("real") or c.get("odd_length"):
+    if c["kind"] != "cont" or len(c["producers"]) != 1 or isinstance(c["producers"][0], dict) or c.get("real") or (c.get("odd_length") and not odd_ok):
         return False
     u = c["item_length"] / c["speed"]
     vals = list(c["producers"][0]) + list(c["services"]) + [c["first_get"]] + list(c.get("hold", []))
@@ -444,6 +444,11 @@ def _belt_worker(args):
     if odd:
         cases += [belt.gen_odd_length(rng) for _ in range(max(8, n // 20))]
         cases += [belt.gen_real_case(rng) for _ in range(max(16, n // 4))]
+    if pid == "C13":
+        # belts whose length is not a whole number of item lengths: the travel-time clauses are not meaningful there (listed C12
+        # finding), but two items standing at the exit of an accumulating belt at once are -- on the slot grid with one producer and
+        # no held claim the unchanged code never does that
+        cases += [belt.gen_odd_length(rng) for _ in range(max(8, n // 5))]
     out = dict(evals=0, tags=collections.Counter(), sigs=set(), dis=[], viol=[], samples=[], ops=collections.Counter())
     real = [c for c in cases if c.get("real")]
     cases = [c for c in cases if not c.get("real")]
@@ -484,11 +489,13 @@ def _belt_worker(args):
                 out["dis"].append(dict(case=c, op_index=j, op=op, impl=a, model=b))
             seen = set()
             for prop, clause, msg in belt.oracle(c, r):
-                if prop != pid or (c.get("odd_length") and clause not in ("capacity", "exact-travel", "min-travel")):
+                if prop != pid or (c.get("odd_length") and clause not in ("capacity", "exact-travel", "min-travel", "acc-exit-shared")):
+                    continue
+                if c.get("odd_length") and clause == "acc-exit-shared" and not (c["acc"] and not c.get("hold") and _belt_on_grid(c, odd_ok=True)):
                     continue
                 if clause == "stall-crash" and not _belt_on_grid(c):
                     continue        # off the slot grid / two producers: the failure is the listed C12 finding (accumulating-order)
-                ongrid = clause in ("acc-overlap", "acc-exit-shared", "order", "crash", "stall-crash") and c["acc"] and _belt_on_grid(c)
+                ongrid = clause in ("acc-overlap", "acc-exit-shared", "order", "crash", "stall-crash") and c["acc"] and _belt_on_grid(c, odd_ok=True)
                 # on the slot grid with one producer: not the listed early-release finding; when the destination claims the head and
                 # takes it later (hold) the tag says so
                 tagc = "[%s/%s%s%s]" % (_belt_tag(c), "odd-length/" if c.get("odd_length") else "",
@@ -509,6 +516,24 @@ def _belt_worker(args):
     return out
 
 
+def _belt_factory_worker(args):
+    """C12 inside factories: conveyor edges between real nodes, judged by the factory oracle's C12 clauses (entry spacing, travel
+    time, capacity on unit-length belts)"""
+    pid, n, seed = args
+    rng = random.Random(seed)
+    out = dict(evals=0, viol=[])
+    for _ in range(n):
+        c = factory.gen_config_conv_series(rng) if _ % 2 else factory.gen_config_conv(rng)
+        lines = factory.run_impl(c)
+        out["evals"] += 1
+        for prop, msg in factory_oracle.check(c, lines):
+            if prop == pid:
+                out["viol"].append(dict(**{"class": "factory"}, message="[conveyor in a factory] " + msg, case=c))
+                break
+    out["viol"] = sorted(out["viol"], key=lambda v: len(json.dumps(v["case"])))[:2]
+    return out
+
+
 def run_belt(pid, tier, seed):
     """the real conveyors (continuous / slotted, accumulating or not) under the real kernel with
     producer and consumer processes; every recorded step replayed on the extracted timed belt model
@@ -518,8 +543,12 @@ def run_belt(pid, tier, seed):
     corpus = load_corpus("tbelt", None)
     jobs = [(pid, n // shards, seed * 419 + k, corpus if k == 0 else [], pid == "C12") for k in range(shards)]
     with multiprocessing.Pool(16) as pool:
+        fouts = pool.map_async(_belt_factory_worker, [(pid, (200 if tier == "quick" else 6000) // 8, seed * 733 + k) for k in range(8)] if pid == "C12" else [])
         outs = pool.map(_belt_worker, jobs)
+        fouts = fouts.get()
     res = dict(evaluations=0, distinct_nontrivial=0, samples=[], traces=0, disagreements=[], violations=[], known=[])
+    for o in fouts:
+        res["evaluations"] += o["evals"]
     tags, ops = collections.Counter(), collections.Counter()
     best = {}
     for o in outs:
@@ -530,7 +559,7 @@ def run_belt(pid, tier, seed):
             k = v["message"].split("]")[0]
             if k not in best or len(json.dumps(v["case"])) < len(json.dumps(best[k]["case"])):
                 best[k] = v
-    res["violations"] = [best[k] for k in sorted(best)]
+    res["violations"] = [best[k] for k in sorted(best)] + [v for o in fouts for v in o["viol"]][:3]
     res["rule"] = ("random scenarios on the real ConveyorBelt classes: continuous (item length 0.5-2, speed 0.5-2, 1-5 item lengths long) "
                    "and slotted (capacity 1-5, slot delay 0.5-2), accumulating or not, 1-2 producer processes with regular / bursty / "
                    "irregular (quarter-unit) arrival gaps, one consumer with start time 0-7 and service times 0-5 (so short, long and "
@@ -540,7 +569,8 @@ def run_belt(pid, tier, seed):
                    "C13 clauses evaluated on the implementation's own times; distinct = distinct (kind, mode, situations, step-kind sequence)"
                    + ("; plus a stream of continuous belts whose length is not a whole number of item lengths (known finding) and a stream with "
                       "irregular real-valued (decimal) speeds, slot delays, arrival gaps and service times, run on the implementation "
-                      "alone with the C12 clauses evaluated up to 1e-6" if pid == "C12" else ""))
+                      "alone with the C12 clauses evaluated up to 1e-6; plus random factories with unit-length conveyor edges between real nodes (two "
+                      "conveyors in series around a multi-worker machine among them), entry spacing / travel time / capacity judged on the movement trace" if pid == "C12" else ""))
     res["distribution"] = dict(runs_reaching=dict(tags), recorded_steps=dict(ops))
     res["domain"] = "ConveyorBelt (continuous, slotted) over both BeltStore classes, driven through reserve_put/put/reserve_get/get"
     return res
